@@ -544,3 +544,145 @@ func (g *c08Gen) genTx(facts []string) *hTx {
 	}
 	return t
 }
+
+// ---------------------------------------------------------------- hook programs (alphabet: c08Exec)
+
+// genProg decides where the transaction's commit actions and pre-commit actions are registered - on the
+// context before Db.Update / Db.Batch is called, at the start and the end of the function, inside nested
+// calls - and which operations are issued through nested db.Update(ctx, ..) / db.Batch(ctx, ..) calls
+// that join the running transaction (0..3 per transaction, nested up to depth 3, possibly empty).
+func (g *c08Gen) genProg(t *hTx, mode string) string {
+	r := g.r
+	var sb strings.Builder
+	// the failing pre-commit action: 0 on the context before the transaction, 1 at the start of the
+	// function, 2 inside a nested call (or at the end of the function)
+	failAt := -1
+	if t.PreCommitErr {
+		failAt = r.intn(3)
+	}
+	if r.chance(75) {
+		sb.WriteByte('c')
+	}
+	if r.chance(65) {
+		sb.WriteByte('p')
+	}
+	if r.chance(15) {
+		sb.WriteByte('q')
+	}
+	if failAt == 0 {
+		sb.WriteByte('f')
+	}
+	if r.chance(20) {
+		sb.WriteByte('c')
+	}
+	sb.WriteByte('|')
+	sb.WriteString("cp") // every transaction: a commit action before its operations, a pre-commit action
+	if failAt == 1 {
+		sb.WriteByte('f')
+	}
+	budget := []int{0, 0, 0, 0, 0, 0, 0, 1, 1, 1, 1, 1, 1, 2, 2, 2, 2, 3, 3, 3}[r.intn(20)]
+	failPending := failAt == 2
+	g.progItems(&sb, len(t.Ops), &budget, 0, &failPending, mode)
+	if budget > 0 && r.chance(50) {
+		sb.WriteString("uc)") // a nested call that only registers
+	}
+	if failPending {
+		sb.WriteByte('f')
+	}
+	sb.WriteByte('c') // ... and a commit action after them
+	if r.chance(35) {
+		sb.WriteByte('p')
+	}
+	if r.chance(10) {
+		sb.WriteByte('q')
+	}
+	return sb.String()
+}
+
+func (g *c08Gen) progItems(sb *strings.Builder, nOps int, budget *int, depth int, failPending *bool, mode string) {
+	r := g.r
+	remaining := nOps
+	for {
+		if *budget > 0 && depth < 3 && r.chance(40) {
+			*budget--
+			take := r.intn(remaining + 1)
+			// mostly the call of the stream, sometimes the other one (joined, both only run the function)
+			open := byte('u')
+			if (mode == "bat") != r.chance(25) {
+				open = 'b'
+			}
+			sb.WriteByte(open)
+			if r.chance(30) {
+				sb.WriteByte('c')
+			}
+			if r.chance(20) {
+				sb.WriteByte('p')
+			}
+			g.progItems(sb, take, budget, depth+1, failPending, mode)
+			if r.chance(50) {
+				sb.WriteByte('c')
+			}
+			if r.chance(40) {
+				sb.WriteByte('p')
+			}
+			if r.chance(10) {
+				sb.WriteByte('q')
+			}
+			if *failPending && r.chance(60) {
+				sb.WriteByte('f')
+				*failPending = false
+			}
+			sb.WriteByte(')')
+			remaining -= take
+			continue
+		}
+		if remaining == 0 {
+			break
+		}
+		sb.WriteByte('.')
+		remaining--
+	}
+}
+
+func c08ProgStats(stats map[string]int, prog string) {
+	start := strings.IndexByte(prog, '|')
+	if start < 0 {
+		start = 0
+	}
+	pre := prog[:start]
+	if strings.ContainsAny(pre, "c") {
+		stats["prog_commit_action_before_tx"]++
+	}
+	if strings.ContainsAny(pre, "pfq") {
+		stats["prog_precommit_action_before_tx"]++
+	}
+	depth, maxDepth, nested, inNested := 0, 0, 0, 0
+	for i := start; i < len(prog); i++ {
+		switch prog[i] {
+		case 'u', 'b':
+			nested++
+			depth++
+			if depth > maxDepth {
+				maxDepth = depth
+			}
+		case ')':
+			depth--
+		case '.':
+			if depth > 0 {
+				stats["prog_ops_in_nested_call"]++
+			}
+		case 'c', 'p', 'f', 'q':
+			if depth > 0 {
+				inNested++
+			}
+			if prog[i] == 'q' {
+				stats["prog_precommit_adds_commit_action"]++
+			}
+		}
+	}
+	stats[fmt.Sprintf("prog_nested_calls_%d", nested)]++
+	stats[fmt.Sprintf("prog_nesting_depth_%d", maxDepth)]++
+	if inNested > 0 {
+		stats["prog_registration_in_nested_call"]++
+	}
+}
